@@ -9,7 +9,15 @@
                        out : "E <number of preprocessor errors>"  or  "EMPTYNAME" when a -D gives an
                              empty macro name (finding C10-empty-macro-name; the model excludes it)
    c10_model scan      line: <hex text of E>     out: "<tokens> <scan_total_b> <scan_total>"  (look-ahead cost of the
-                       bounded loop as coded since 98a0163, and of the same loop without the bound) *)
+                       bounded loop as coded since 98a0163, and of the same loop without the bound)
+   c10_model typedefs  line: <decl> <decl> ... | <name>,<name>,...
+                       decl = ts:TAG:ALIAS (typedef struct TAG {..} ALIAS;)  ta:ALIAS (typedef struct {..} ALIAS;)  te:ALIAS (typedef enum)
+                              tp:TY:ALIAS (typedef int[2] ALIAS;)  tl:BASE:ALIAS (typedef BASE ALIAS;)  tq:ALIAS:PRIM (typedef ALIAS = int;)
+                              tu:ALIAS (typedef ALIAS = int | string;)  st:N (struct)  en:N (enum)  fp:N (function pointer typedef)
+                              if:N (interface)  gv:TY (TY gv;)
+                       out : "ERR -|UT:<name>|UK:<name>", "MAP k=<hex v>;..." (sorted), "SD ..", "ED ..", "UD ..", "ID .." (sorted key
+                             sets), "R <name> <hex of resolveTypedefChain(name) or ->" per query name, "END"
+                             (Typedefs.td_run / Typedefs.resolved - the same lines harness/cpp/c10_typedefs.cpp prints for the code) *)
 open C10_model
 
 let explode s = List.init (String.length s) (String.get s)
@@ -63,6 +71,27 @@ let () =
                   let c = process t (explode "in.cb") (split_lines file) in
                   Printf.printf "E %d\n" (int_of_nat c.nerr)
                 end)
+       | "typedefs" ->
+           let parts = String.split_on_char '|' l in
+           let ds = words (List.hd parts) in
+           let qs = match parts with _ :: q :: _ -> List.filter (fun x -> x <> "") (String.split_on_char ',' (String.trim q)) | _ -> [] in
+           let e = explode in
+           let decl_of w = match String.split_on_char ':' w with
+             | ["ts"; a; b] -> DTStruct (e a, e b) | ["ta"; a] -> DTAnon (e a) | ["te"; a] -> DTEnum (e a)
+             | ["tp"; a; b] -> DTPrim (e a, e b) | ["tl"; a; b] -> DTAlias (e a, e b) | ["tq"; a; b] -> DTEq (e a, e b)
+             | ["tu"; a] -> DTUnion (e a) | ["st"; a] -> DStruct (e a) | ["en"; a] -> DEnum (e a) | ["fp"; a] -> DFuncPtr (e a)
+             | ["if"; a] -> DIface (e a) | ["gv"; a] -> DGlobal (e a)
+             | _ -> failwith ("bad decl " ^ w) in
+           let (t, err) = td_run empty_tables (List.map decl_of ds) in
+           print_endline ("ERR " ^ (match err with None -> "-" | Some (EUnknownTypedef n) -> "UT:" ^ implode n
+                                                   | Some (EUnknownType n) -> "UK:" ^ implode n));
+           let hx v = if v = [] then "-" else hex v in
+           let m = List.sort compare (List.map (fun (k, v) -> (implode k, v)) t.tm) in
+           print_endline ("MAP " ^ String.concat ";" (List.map (fun (k, v) -> k ^ "=" ^ hx v) m));
+           let ks tag l = print_endline (tag ^ " " ^ String.concat "," (List.sort compare (List.map implode l))) in
+           ks "SD" t.sdefs; ks "ED" t.edefs; ks "UD" t.udefs; ks "ID" t.idefs;
+           List.iter (fun q -> Printf.printf "R %s %s\n" q (hx (resolved t (e q)))) qs;
+           print_endline "END"
        | _ -> print_endline "?");
       flush stdout
     done
